@@ -14,7 +14,7 @@ optimized=False (loopcontrols extension enabled):
 plus the differential between the four environments (also on cases the interpreter declines).
 """
 import copy
-import itertools
+import os
 
 from vt import core
 from vt.gen import stmt as G
@@ -41,7 +41,8 @@ ASSUMPTIONS = [
     "not generated (undocumented outcomes): break/continue inside buffering blocks, loop else branches or across macros; "
     "filter-block arguments that read variables; loop filters that can raise or read namespaces; loop.* / caller across "
     "macro and call-block boundaries; macros stored in namespaces",
-    "known finding excluded by construction: identifiers that are not NFKC-stable (F1)",
+    "known findings excluded by construction: identifiers that are not NFKC-stable (F1); reads from a nested scope of a "
+    "name an enclosing scope assigns only later while an outer binding exists (F38, = the declined class above)",
     "errors are compared by family: UndefinedError / TypeError / ValueError / other TemplateRuntimeError",
 ]
 
@@ -101,7 +102,7 @@ def _check(case, allow_known=False):
             raise core.Excluded()  # F1
     src = G.print_program(prog)
     rsrc = G.print_program(prog, rename) if rename else None
-    exp = [I.interpret_ex(prog, d) for d in datas]
+    exp = [I.interpret_ex(prog, d, guard=not allow_known) for d in datas]
     if any(r.kind == "declined" and r.value != "Ambiguous" for r in exp):
         raise core.Discard()  # budget / unsupported: nothing is run
     labels = set()
@@ -166,7 +167,8 @@ def check_case(case):
 
 
 def check_known(entry):
-    """Known findings are replayed without the by-construction exclusions."""
+    """Known findings are replayed without the by-construction exclusions (NFKC-unstable identifiers allowed, the
+    interpreter's ambiguity guard off: F38 is exactly the class the guard declines)."""
     return _check(entry["case"], allow_known=True)
 
 
@@ -238,6 +240,8 @@ def case_strategy(max_depth, max_nodes):
 
 
 N_SHARDS = 16
+# development knob (sensitivity runs on a loaded machine); 1 in every registered run
+_SCALE = float(os.environ.get("VERIF_SCALE", "1"))
 
 
 def shards(tier):
@@ -249,7 +253,7 @@ def run_shard(spec, ctx):
     core.enum_shard(core.sliced(alias_cases(all_shapes=not ctx.quick), ctx.index, ctx.nshards), check_case, ctx, rec=rec)
     if rec.violations:
         return rec
-    n = ctx.pick(640, 8500)
+    n = max(16, int(ctx.pick(640, 8500) * _SCALE))
     small = n // 2
     core.hyp_shard(case_strategy(4, 25), check_case, ctx, small, rec=rec, tag="small")
     if rec.violations:
